@@ -182,7 +182,7 @@ cam_stop(Camera* c)
     ev(i, "stop");
     if (hub.cam_script[i->idx].stop_yields) {
         i->stopping = true;
-        clock_sleep_ms(nullptr, 5.0f); // a real stop takes time: other threads run while the camera stops
+        clock_sleep_ms(nullptr, hub.cam_script[i->idx].stop_ms); // a real stop takes time: other threads run while the camera stops
         i->stopping = false;
         i = enter(c, "camera.stop (while it was stopping)");
         if (!i)
